@@ -86,16 +86,42 @@ theorem write_shape (a a' : NDArray V) (cnt off : Idx) (vals : List V) (h : a.wr
   | error e => rw [hr] at h; cases h
   | ok oc => rw [hr] at h; simp only [Except.ok.injEq] at h; rw [← h]; exact ⟨rfl, rfl⟩
 
-/-- a write that would leave the extent is refused and transfers nothing -/
+/-- a box with a zero count contains no index -/
+theorem inBox_zero : ∀ (off cnt idx : Idx), 0 ∈ cnt → inBox off cnt idx = false
+  | [], [], [], h => by simp at h
+  | o :: os, c :: cs, i :: is, h => by
+    simp only [inBox]
+    rcases List.mem_cons.1 h with h0 | h1
+    · subst h0; simp; omega
+    · simp [inBox_zero os cs is h1]
+  | [], _ :: _, _, _ => by simp [inBox]
+  | [], [], _ :: _, _ => by simp [inBox]
+  | _ :: _, [], _, _ => by simp [inBox]
+  | _ :: _, _ :: _, [], _ => by simp [inBox]
+
+/-- a write with a zero entry in its count is accepted wherever it points and changes no element (HDF5 selects nothing) -/
+theorem get_write_zero (a a' : NDArray V) (cnt off : Idx) (vals : List V) (ho : off ≠ [])
+    (hcl : cnt.length = a.shape.length) (hol : off.length = a.shape.length) (hz : 0 ∈ cnt)
+    (h : a.write cnt off vals = .ok a') (idx : Idx) : a'.get idx = a.get idx := by
+  unfold NDArray.write NDArray.resolve at h
+  have h1 : off.isEmpty = false := by cases off <;> simp_all
+  have h2 : cnt.isEmpty = false := by cases cnt <;> simp_all
+  have t1 : List.take a.shape.length cnt = cnt := by rw [← hcl]; exact List.take_length
+  have t2 : List.take a.shape.length off = off := by rw [← hol]; exact List.take_length
+  simp [h1, h2, hcl, hol, t1, t2, hz] at h
+  subst h
+  simp [inBox_zero off cnt idx hz]
+
+/-- a write that would leave the extent (and asks for at least one element) is refused and transfers nothing -/
 theorem write_outside_rejected (a : NDArray V) (cnt off : Idx) (vals : List V) (hc : cnt ≠ []) (ho : off ≠ [])
-    (hcl : cnt.length = a.shape.length) (hol : off.length = a.shape.length)
+    (hcl : cnt.length = a.shape.length) (hol : off.length = a.shape.length) (hz : 0 ∉ cnt)
     (hb : a.boxOk off cnt = false) : a.write cnt off vals = .error .h5Error := by
   unfold NDArray.write NDArray.resolve
   have h1 : off.isEmpty = false := by cases off <;> simp_all
   have h2 : cnt.isEmpty = false := by cases cnt <;> simp_all
   have t1 : List.take a.shape.length cnt = cnt := by rw [← hcl]; exact List.take_length
   have t2 : List.take a.shape.length off = off := by rw [← hol]; exact List.take_length
-  simp [h1, h2, hcl, hol, t1, t2, hb]
+  simp [h1, h2, hcl, hol, t1, t2, hb, hz]
 
 /-- **setExtent**: surviving elements keep their value, newly exposed ones read as zero -/
 theorem get_setExtent (a a' : NDArray V) (shape : Idx) (h : a.setExtent shape = .ok a') (idx : Idx) :
